@@ -124,6 +124,34 @@ func init() {
 		}{"deepreentry", w})
 	}
 
+	// mshandover: see genMsHandover
+	kinds["mshandover"] = &kindFn{gen: genMsHandover, run: runCore}
+	propKinds["C05"] = append(propKinds["C05"], struct {
+		Kind   string
+		Weight int
+	}{"mshandover", 2})
+
+	// longwaiters: see genLongWaiters
+	kinds["longwaiters"] = &kindFn{gen: genLongWaiters, run: runCore}
+	propKinds["C05"] = append(propKinds["C05"], struct {
+		Kind   string
+		Weight int
+	}{"longwaiters", 2})
+
+	// longtable: see genLongTable
+	kinds["longtable"] = &kindFn{gen: genLongTable, run: runCore}
+	propKinds["C06"] = append(propKinds["C06"], struct {
+		Kind   string
+		Weight int
+	}{"longtable", 3})
+
+	// queuemigrate: see genQueueMigrate
+	kinds["queuemigrate"] = &kindFn{gen: genQueueMigrate, run: runCore}
+	propKinds["C04"] = append(propKinds["C04"], struct {
+		Kind   string
+		Weight int
+	}{"queuemigrate", 2})
+
 	// fullcount: see genFullCount
 	kinds["fullcount"] = &kindFn{gen: genFullCount, run: runCore}
 	propKinds["C01"] = append(propKinds["C01"], struct {
